@@ -422,7 +422,7 @@ var crlAlphabet = []string{
 	"delta-bad-indicator", "delta-wrong-signer", "delta-expired", "delta-no-nextupdate", "delta-crit-unknown-ext", "delta-lists-cert", "base-lists-delta-removes",
 	"base-no-number-delta", "delta-no-number", "both-no-number", "base-no-number",
 	"fetch-error", "fetch-error-timeout", "fetch-error-deadline", "fetch-error-canceled", "fetch-error-cache-miss", "fetch-error-eof", "entry-crit-ext", "entry-crit-ext-other-serial", "hold", "hold-then-remove",
-	"many-entries-delta-entries", "many-entries-delta-lists-cert",
+	"many-entries-delta-entries", "many-entries-delta-lists-cert", "clean-base-advertises-delta", "delta-ok-base-silent",
 }
 
 var crlCore = []string{"clean", "lists-cert", "wrong-signer", "expired", "no-nextupdate", "crit-unknown-ext", "delta-ok", "delta-n5-i4", "delta-n7-i6", "delta-lists-cert", "fetch-error", "entry-crit-ext"}
@@ -441,6 +441,7 @@ func (c *crlCtx) behaviour(label string) *fetchBehaviour {
 	mkDelta := func() *CRLSpec {
 		return &CRLSpec{Number: big.NewInt(6), ThisUpdate: c.now.Add(-time.Hour), NextUpdate: c.now.Add(time.Hour), Indicator: big.NewInt(5)}
 	}
+	baseSilent := false
 	serial := c.leaf.Cert.SerialNumber
 	entry := func(reason int, rev time.Time) EntrySpec {
 		return EntrySpec{Serial: serial, Reason: reason, RevTime: rev}
@@ -478,6 +479,13 @@ func (c *crlCtx) behaviour(label string) *fetchBehaviour {
 		}
 		delta = mkDelta()
 		delta.Entries = []EntrySpec{entry(1, c.now.Add(-time.Hour))}
+	case "clean-base-advertises-delta":
+		// the base list carries a freshest-CRL extension, the bundle has no delta (a fetcher or cache that delivers base lists only)
+		base.Freshest = []string{"http://delta.undelivered.test/d.crl"}
+	case "delta-ok-base-silent":
+		// a delta is delivered although the base list does not advertise one
+		delta = mkDelta()
+		baseSilent = true
 	case "delta-ok":
 		delta = mkDelta()
 	case "delta-num-eq":
@@ -566,7 +574,7 @@ func (c *crlCtx) behaviour(label string) *fetchBehaviour {
 		panic("unknown crl behaviour " + label)
 	}
 	durl := ""
-	if delta != nil && len(base.Freshest) == 0 && base.FreshestRaw == nil {
+	if delta != nil && !baseSilent && len(base.Freshest) == 0 && base.FreshestRaw == nil {
 		// the base says where its delta is (nothing in the check itself reads this; the real fetcher does)
 		durl = fmt.Sprintf("http://delta.%s.test/%s.crl", strings.Map(func(r rune) rune {
 			if r >= 'a' && r <= 'z' || r >= '0' && r <= '9' {
